@@ -61,6 +61,31 @@ def start_shards(pid, tier, vseed, nshards, work, hashseed_mode, only):
 
 def collect_shards(procs, work):
     results = []
+    if os.environ.get("PV_FAIL_FAST"):
+        # sensitivity tooling only: as soon as one shard has finished with a recorded failure the others are stopped
+        live = True
+        while live:
+            live = any(p.poll() is None for _, _, p, _ in procs)
+            for i, out, p, log in procs:
+                if p.poll() is not None and os.path.exists(out):
+                    try:
+                        with open(out) as fh:
+                            done = json.load(fh)
+                    except ValueError:
+                        continue
+                    pats = [f["signature"] for f in load_findings()["open"]]
+                    if any(not any(sig_matches(sg, pt) for pt in pats) for c in done["clauses"].values() for sg in c["failures"]):
+                        for _, out2, p2, _ in procs:
+                            if p2.poll() is None:
+                                p2.terminate()
+                        live = False
+                        break
+            time.sleep(0.2)
+        for i, out, p, log in procs:
+            p.wait()
+            if not os.path.exists(out):
+                with open(out, "w") as fh:
+                    json.dump({"shard": i, "hashseed": None, "clauses": {}, "error": None}, fh)
     for i, out, p, log in procs:
         p.wait()
         log.close()
@@ -258,8 +283,8 @@ def main(argv=None):
                 continue
             case = f["cases"][0]
             try:
-                if "no_result_within" in sig:
-                    raise RuntimeError("no shrinking of non-terminating cases")
+                if "no_result_within" in sig or os.environ.get("PV_NO_SHRINK"):
+                    raise RuntimeError("no shrinking of non-terminating cases / shrinking switched off (sensitivity tooling)")
                 budget = 300 if args.tier == "quick" else 1500
                 small, _ = shrink(clauses[name], case, sig, budget=budget, wall=45.0 if args.tier == "quick" else 240.0,
                                   valid=getattr(mod, "VALID", {}).get(name, getattr(mod, "VALID_DEFAULT", None)))
